@@ -882,6 +882,11 @@ def _small_c13(tier, seed, shard=(0, 1)):
     for off in (276, 278, 280, 282, 284):
         for v in (0, 1, 0x7FFF, 0xFFFF):
             cases.append({"kind": "roland", "patch": [[off, v, 2]]})
+    # sample loop points of both samples (S0 forward, S1 reverse oneshot): start / sustain / release addresses moved before, onto and behind one another
+    for prm in (0x255800, 0x255830):
+        for fld in (16, 20, 24, 28, 32):
+            for v in ((0, 58, 59, 60, 171, 255) if tier != "quick" else (0, 60, 171)):
+                cases.append({"kind": "roland", "patch": [[prm + fld + 1, v, 1]]})
     # the FAT body (entries 2..) overwritten with ONE word: every entry links into the same ring / the same cluster
     for word in (0x0505, 0xE5E5, 0x0002, 0xFFF7):
         cases.append({"kind": "roland", "patch": [], "fill": [[FAT + 4, 0xFFF0, word]]})
@@ -934,7 +939,7 @@ CONCRETE["e2e:C13"] = {
     "nontrivial": lambda i, s: s["kind"] == "return",
     "bound": "ls at 3..5 levels and export, each under a 20 s CPU alarm and a 6 GiB address-space limit, on: random byte files of 6 sizes; an AKAI "
              "image with each SAT word of the used region set to every special value and to in-range / out-of-range links, header and volume-entry "
-             "fields, random byte damage; a Roland image with FAT words, counts, directory and parameter bytes damaged; cue sheets with "
+             "fields, random byte damage; a Roland image with FAT words, counts, directory and parameter bytes damaged, every loop-point address of a forward and a reverse sample moved before / onto / behind the others; cue sheets with "
              "deleted / inserted / replaced lines incl. pathological tokens; sample windows (count / start / end) that disagree with the data, "
              "incomplete dumps cut at 7 / 100 places, INDEX times that run backwards or lie far behind the bin; no written file larger than twice the image",
     "timeout_s": 20.0, "budget_quick": 280, "budget_thorough": 1500,
